@@ -205,6 +205,15 @@ def load_catalogue(props):
             continue
         if not props or prop in props:
             muts.append(dict(id=f"seed:{d}", prop=prop, rule=rule, desc=(meta.get("summary") or "")[:100], patch=os.path.join(sd, d, "patch.diff")))
+    # behaviour-preserving refactorings written by independent authors: every one must leave all verdicts alone
+    rd = os.path.join(VERIF, "refactors")
+    for d in sorted(os.listdir(rd)) if os.path.isdir(rd) else []:
+        prop = d.upper()
+        if props and prop not in props:
+            continue
+        for fn in sorted(os.listdir(os.path.join(rd, d))):
+            if fn.endswith(".diff"):
+                muts.append(dict(id=f"refactor:{d}/{fn[:-5]}", prop=prop, benign=True, desc="independent behaviour-preserving refactoring", patch=os.path.join(rd, d, fn)))
     return muts
 
 
